@@ -40,6 +40,9 @@ def run_history(ctx, exe, rng, idx):
     stats = collections.Counter()
     nag = rng.choice([2, 3])
     ags = [agents.Agent(exe, name="agent%d" % i) for i in range(nag)]
+    if idx % 2:
+        for ag in ags:
+            ag.cmd("inject 30")        # half of the histories: 30% of sem_wait/sem_open/shm_open calls return EINTR first
     base = "vfC06-%d-%d-%d" % (os.getpid(), ctx.seed, idx)
     names = [base + "-" + c for c in "abc"[:rng.choice([1, 2, 3])]]
     m = Model()
@@ -160,6 +163,12 @@ def run_history(ctx, exe, rng, idx):
         ok = False
     finally:
         for ag in ags:
+            try:
+                if ag.alive() and idx % 2:
+                    stats_inj = int(ag.cmd("injected", timeout=5).split()[1])
+                    (stats if "stats" in dir() else st)["eintr_injected"] += stats_inj
+            except Exception:
+                pass
             ag.kill()
         agents.sweep([agents.sem_path(n) for n in names])
     return ok, log, stats
